@@ -29,7 +29,10 @@ ASSUMPTIONS = [
     'view domain: None, Ellipsis, tuples (possibly empty or shorter than ndim) of integers (negative allowed, in range) and positive-step slices, tuples of '
     'integer index arrays (one per axis), boolean masks of the full shape; negative-step slices, lists, np.newaxis and a bare index array are outside',
     'model domain: basic views (integers and slices); index-array and boolean-mask views are checked by the oracle only',
-    'IndexedData views: the same domain over the reduced shape; statistics/histograms of an IndexedData are compared with the textbook statistic of the parent slice',
+    'IndexedData views: the same domain over the reduced shape; indices are any valid numpy integer (negative = from the end); statistics/histograms of an '
+    'IndexedData are compared with the textbook statistic of the parent slice',
+    'ROI selections on the pixel coordinates of another dataset linked by LinkSame (axes permuted, more dimensions than ROI attributes) are also compared with '
+    'the mask computed from first principles, since there the view and the full mask could be wrong together',
 ]
 
 ALPHABET = [0, -1, [None, None, None], [1, None, None], [0, None, 2], [1, 3, None]]
@@ -203,6 +206,28 @@ def selections(d, rng):
     return sels
 
 
+def linked_pixel_rois(d, dc):
+    """ROIs on the pixel coordinates of OTHER datasets (2-d images) whose pixel axes are linked (LinkSame) to two axes of d,
+    at permuted positions and with d having more dimensions than the ROI has attributes.
+    Returns (name, state, reference mask over d from first principles, axes of d in attribute order, roi)"""
+    G.load()
+    nd = d.ndim
+    shape = d.shape
+    pairings = {1: [], 2: [(0, 1), (1, 0)], 3: [(1, 2), (2, 0), (0, 1)]}.get(nd, [(1, 2), (3, 0)])
+    out = []
+    grid = np.indices(shape)
+    for k, (p0, p1) in enumerate(pairings):
+        img = G.Data(w=np.zeros((shape[p0], shape[p1])), label='img%d' % k)
+        dc.append(img)
+        dc.add_link(G.LinkSame(img.pixel_component_ids[0], d.pixel_component_ids[p0]))
+        dc.add_link(G.LinkSame(img.pixel_component_ids[1], d.pixel_component_ids[p1]))
+        for r, roi in enumerate([G.ROI.RectangularROI(xmin=0.5, xmax=2.5, ymin=-0.5, ymax=1.5), G.ROI.CircularROI(1, 1, 1.2)]):
+            state = G.S.RoiSubsetState(xatt=img.pixel_component_ids[1], yatt=img.pixel_component_ids[0], roi=roi)
+            ref = np.asarray(roi.contains(grid[p1].astype(float), grid[p0].astype(float)), dtype=bool)
+            out.append(('roi_linkedpix_%d%d_%d' % (p0, p1, r), state, ref, [p1, p0], roi))
+    return out
+
+
 # ------------------------------------------------------------------ comparison
 def same(a, b):
     a, b = np.asarray(a), np.asarray(b)
@@ -238,8 +263,8 @@ def line_world(shape, dep, vd):
     return enc((3, [Z(shape), Z(dep), view_enc(vd)]))
 
 
-def line_roi(shape, axis_ids, table, vd):
-    return enc((2, [Z(shape), Z(axis_ids), Z(table.shape), B(table.ravel().tolist()), view_enc(vd)]))
+def line_roi(shape, axis_ids, table, vd, own=True):
+    return enc((2, [Z(shape), Z(axis_ids), Z(table.shape), B(table.ravel().tolist()), view_enc(vd), int(own)]))
 
 
 def line_slice(shape, slices, vd):
@@ -302,12 +327,22 @@ def stream_cross(R):
                         pending.append((case, got, line_world(shape, dep, vd), ('world', d, axis)))
             # ---- selections
             if ck in ('none', 'affine_dep'):
-                for name, st in selections(d, rng):
+                linked = {}
+                sel_list = selections(d, rng)
+                for name, st, ref, ax, roi in linked_pixel_rois(d, dc):
+                    sel_list.append((name, st))
+                    linked[name] = (ref, ax, roi)
+                for name, st in sel_list:
                     fullr = call(lambda: d.get_mask(st))
                     if fullr[0] == 'err':
                         R.fail('oracle', dict(base, kind='mask', name=name, view='none'), {'raises': fullr[1], 'message': fullr[2]}, key=None)
                         continue
                     full = np.asarray(fullr[1])
+                    if name in linked:
+                        # the full-size mask itself against the definition (both the view and the full mask could be wrong together)
+                        ncases += 1
+                        R.count((tuple(shape), ck, 'mask_ref', name), nontrivial=bool(linked[name][0].any()), stream='cross', what='mask:roi_linkedpix', view='reference', ndim=nd)
+                        check_oracle(R, dict(base, kind='mask', name=name, view='none', against='reference'), ('ok', full), linked[name][0])
                     for vd, v in zip(views, vobjs):
                         exp = expected_view(full, v)
                         if exp[0] == 'err':
@@ -316,7 +351,7 @@ def stream_cross(R):
                         got = call(lambda: d.get_mask(st, view=v))
                         ncases += 1
                         trivial = vd in ('none', 'ellipsis') or np.asarray(exp[1]).size == 0 or not np.asarray(exp[1]).any()
-                        R.count((tuple(shape), ck, 'mask', name, repr(vd)), nontrivial=not trivial, stream='cross', what='mask:' + name,
+                        R.count((tuple(shape), ck, 'mask', name, repr(vd)), nontrivial=not trivial, stream='cross', what='mask:' + (name if name not in linked else 'roi_linkedpix'),
                                 view=view_kind(vd), ndim=nd)
                         check_oracle(R, case, got, exp[1])
                         if is_basic(vd):
@@ -328,6 +363,11 @@ def stream_cross(R):
                                 grid = np.meshgrid(np.arange(shape[ax[0]], dtype=float), np.arange(shape[ax[1]], dtype=float), indexing='ij')
                                 table = np.asarray(st.roi.contains(grid[0], grid[1]), dtype=bool)
                                 pending.append((case, got, line_roi(shape, ax, table, vd), ('mask',)))
+                            elif name in linked:
+                                ref, ax, roi = linked[name]
+                                grid = np.meshgrid(np.arange(shape[ax[0]], dtype=float), np.arange(shape[ax[1]], dtype=float), indexing='ij')
+                                table = np.asarray(roi.contains(grid[0], grid[1]), dtype=bool)
+                                pending.append((case, got, line_roi(shape, ax, table, vd, own=False), ('mask',)))
     outs = R.model([p[2] for p in pending])
     for (case, got, _, chk), o in zip(pending, outs):
         check_model(R, case, got, o, chk)
@@ -433,7 +473,7 @@ def textbook_sum(x, mask, ax):
 
 def stream_indexed(R):
     G.load()
-    shapes = R.pick([(3, 4), (2, 3, 4)], [(3, 4), (2, 3, 4), (3, 2, 2), (2, 2, 2, 3)])
+    shapes = R.pick([(3, 4), (2, 5, 3)], [(3, 4), (2, 5, 3), (2, 3, 4), (3, 2, 2), (2, 2, 2, 3)])
     pending = []
     ncases = 0
     for shape in shapes:
@@ -445,8 +485,16 @@ def stream_indexed(R):
                 if all(p is None for p in pattern) or all(p == 'i' for p in pattern):
                     continue
                 ix = None
-                for trial in range(2):
-                    idx = [None if p is None else rng.randrange(s) for p, s in zip(pattern, shape)]
+                removed = [k for k, p in enumerate(pattern) if p is not None]
+                for trial in range(3):
+                    # indices count from either end (negative ones are ordinary numpy indices); -1 is always included:
+                    # trial 0: random; trial 1: reassigned, -1 on the first removed axis; trial 2: a fresh IndexedData with -1 on the last one
+                    idx = [None if p is None else rng.randrange(-s, s) for p, s in zip(pattern, shape)]
+                    if trial == 1:
+                        idx[removed[0]] = -1
+                    if trial == 2:
+                        idx[removed[-1]] = -1
+                        ix = None
                     if ix is None:
                         ix = G.IndexedData(d, tuple(idx))
                     else:
@@ -484,7 +532,9 @@ def stream_indexed(R):
                             one('world', dict(base, kind='world', axis=k), lambda: ix.get_data(ix.world_component_ids[k]),
                                 d[d.world_component_ids[oax]][psl])
                     n = int(np.prod(shape))
-                    sels = [('ineq', d.id['y'] > 2), ('mask', G.S.MaskSubsetState(np.array([rng.random() < .5 for _ in range(n)]).reshape(shape), d.pixel_component_ids)),
+                    mlit = [int(rng.random() < .5) for _ in range(n)]
+                    base = dict(base, mask_literal=mlit)
+                    sels = [('ineq', d.id['y'] > 2), ('mask', G.S.MaskSubsetState(np.array(mlit, dtype=bool).reshape(shape), d.pixel_component_ids)),
                             ('slice', G.S.SliceSubsetState(d, [slice(1, None)])), ('range_pix', G.S.RangeSubsetState(1, 2, d.pixel_component_ids[-1]))]
                     for sn, st in sels:
                         full = np.asarray(d.get_mask(st))[psl]
@@ -499,6 +549,15 @@ def stream_indexed(R):
                         for ax in [None] + list(range(rnd)) + [tuple(range(rnd))] + ([tuple(range(1, rnd))] if rnd > 1 else []):
                             one('statistic', dict(base, kind='statistic', sel=sn, axis=ax),
                                 lambda: ix.compute_statistic('sum', cid, subset_state=st, axis=ax), textbook_sum(x[psl], mfull, ax))
+                        if st is not None:
+                            # a view whose slices start at the end of every kept axis (beyond the lengths of the earlier dimensions)
+                            for off in (1, 2):
+                                vd = ['tuple', [[max(s - off, 0), None, None] for s in rshape]]
+                                v = view_obj(vd)
+                                for ax in [None] + list(range(rnd)):
+                                    one('statistic', dict(base, kind='statistic', sel=sn, axis=ax, view=vd),
+                                        lambda: ix.compute_statistic('sum', cid, subset_state=st, axis=ax, view=v),
+                                        textbook_sum(x[psl][v], mfull[v], ax))
                         vals = x[psl].ravel() if st is None else x[psl][mfull]
                         # 5 bins over (-2.25, 4.75): no data value (multiples of 1/2) sits on a bin edge
                         exph = np.histogram(vals, range=(-2.25, 4.75), bins=5)[0]
@@ -519,8 +578,9 @@ def stream_indexed(R):
     R.sample({'stream': 'indexed', 'shape': [2, 3, 4], 'coords': 'none', 'seed': R.seed + 1, 'indices': [None, 1, None], 'reassigned': False,
               'kind': 'values', 'view': ['tuple', [[1, None, None]]]})
     R.stream('indexed', cases=ncases, model_cases=len(pending), exhaustive=True,
-             bound='parents %s, every pattern of removed dimensions, indices drawn and then reassigned once; values under every view of the domain over the reduced '
-                   'shape; pixel/world attributes; masks of 4 selection kinds under every view; sum statistic for every axis argument with and without selection; histograms' % (shapes,))
+             bound='parents %s, every pattern of removed dimensions; indices from either end of the axis (negative ones included, -1 always): drawn, reassigned, and '
+                   'a fresh IndexedData; values under every view of the domain over the reduced shape; pixel/world attributes; masks of 4 selection kinds under every '
+                   'view; sum statistic for every axis argument with and without selection, also under views whose slices start at the end of every kept axis; histograms' % (shapes,))
 
 
 # ------------------------------------------------------------------ malformed
@@ -562,6 +622,19 @@ def run(R):
 
 
 # ------------------------------------------------------------------ replay
+def replay_sel(case, d):
+    sn = case['sel']
+    if sn == 'none':
+        return None
+    if sn == 'ineq':
+        return d.id['y'] > 2
+    if sn == 'slice':
+        return G.S.SliceSubsetState(d, [slice(1, None)])
+    if sn == 'range_pix':
+        return G.S.RangeSubsetState(1, 2, d.pixel_component_ids[-1])
+    return G.S.MaskSubsetState(np.array(case['mask_literal'], dtype=bool).reshape(d.shape), d.pixel_component_ids)
+
+
 def replay(R, case):
     G.load()
     out = {'case': case}
@@ -589,7 +662,18 @@ def replay(R, case):
             got = call(lambda: owner.get_data(cid, view=v) if v is not None else owner[cid])
         else:
             all_views(shape, rng)        # keep the random stream aligned with the run
-            state = dict(selections(d, rng))[case['name']]
+            sels = dict(selections(d, rng))
+            refs = {}
+            for name, stt, ref, ax, roi in linked_pixel_rois(d, dc):
+                sels[name] = stt
+                refs[name] = ref
+            state = sels[case['name']]
+            if case.get('against') == 'reference':
+                full = np.asarray(d.get_mask(state))
+                out['expected'] = refs[case['name']].tolist()
+                out['implementation'] = full.tolist()
+                out['violates'] = same(full, refs[case['name']]) is not None
+                return out
             full = np.asarray(d.get_mask(state))
             got = call(lambda: d.get_mask(state, view=v))
         exp = expected_view(full, v)
@@ -602,7 +686,7 @@ def replay(R, case):
         idx = tuple(case['indices'])
         ix = G.IndexedData(d, idx)
         if case.get('reassigned'):
-            other = tuple(None if i is None else (i + 1) % s for i, s in zip(idx, shape))
+            other = tuple(None if i is None else (i % s + 1) % s for i, s in zip(idx, shape))
             ix.indices = other
             ix.indices = idx
         psl = tuple(slice(None) if i is None else i for i in idx)
@@ -612,13 +696,23 @@ def replay(R, case):
         if kind == 'values':
             v = view_obj(case['view'])
             got, exp = call(lambda: ix.get_data(cid, view=v)), expected_view(x[psl], v)
-        elif kind == 'statistic' and case.get('sel') in ('none', 'ineq', 'slice', 'range_pix'):
-            stt = {'none': None, 'ineq': d.id['y'] > 2, 'slice': G.S.SliceSubsetState(d, [slice(1, None)]),
-                   'range_pix': G.S.RangeSubsetState(1, 2, d.pixel_component_ids[-1])}[case['sel']]
+        elif kind == 'statistic' and case.get('sel') in ('none', 'ineq', 'slice', 'range_pix', 'mask'):
+            stt = replay_sel(case, d)
             ax = case['axis']
             ax = tuple(ax) if isinstance(ax, list) else ax
             mfull = None if stt is None else np.asarray(d.get_mask(stt))[psl]
-            got, exp = call(lambda: ix.compute_statistic('sum', cid, subset_state=stt, axis=ax)), ('ok', textbook_sum(x[psl], mfull, ax))
+            v = view_obj(case['view']) if case.get('view') is not None else None
+            xs, ms = (x[psl], mfull) if v is None else (x[psl][v], None if mfull is None else mfull[v])
+            got, exp = call(lambda: ix.compute_statistic('sum', cid, subset_state=stt, axis=ax, view=v)), ('ok', textbook_sum(xs, ms, ax))
+        elif kind == 'mask' and case.get('sel') in ('ineq', 'slice', 'range_pix', 'mask'):
+            stt = replay_sel(case, d)
+            v = view_obj(case['view'])
+            got, exp = call(lambda: ix.get_mask(stt, view=v)), expected_view(np.asarray(d.get_mask(stt))[psl], v)
+        elif kind == 'histogram' and case.get('sel') in ('none', 'ineq', 'slice', 'range_pix', 'mask'):
+            stt = replay_sel(case, d)
+            vals = x[psl].ravel() if stt is None else x[psl][np.asarray(d.get_mask(stt))[psl]]
+            got = call(lambda: ix.compute_histogram([cid], range=[(-2.25, 4.75)], bins=[5], subset_state=stt))
+            exp = ('ok', np.histogram(vals, range=(-2.25, 4.75), bins=5)[0])
         else:
             out['note'] = 'replay by re-running the stream: ./check C04 --tier quick'
             out['violates'] = False
